@@ -98,6 +98,11 @@ class CallMixin:
                 return self.call_function(f, args, kwargs, node)
         if isinstance(f, types.MethodType) and isinstance(f.__func__, types.FunctionType) and (f.__func__.__module__ or '').startswith('mesonbuild'):
             return self.call_function(f.__func__, [f.__self__] + list(args), kwargs, node)
+        def _conc(a):
+            if isinstance(a, PyList) and not any(is_sym(x) or contains_sym(x) or isinstance(x, (PyList, PyDict, VStruct)) for x in a.items):
+                return list(a.items)
+            return a
+        args = [_conc(a) for a in args]
         if not any(is_sym(a) or contains_sym(a) or isinstance(a, (PyList, PyDict, Closure)) for a in list(args) + list(kwargs.values())):
             mod = getattr(f, '__module__', None) or ''
             if mod.split('.')[0] in self.pure_modules or isinstance(f, (types.BuiltinFunctionType, types.MethodDescriptorType, types.BuiltinMethodType, types.MethodType)):
@@ -249,7 +254,7 @@ class CallMixin:
         env = self.bind(fs.node.args, args, kwargs, f.__defaults__, None)
         if self.cur_pure():
             # a call inside a quantified / pure context: only contracts that define the result by an expression qualify
-            if c.pure_expr is None or c.requires or c.raises or c.modifies:
+            if c.pure_expr is None or c.requires or (c.raises and not c.pure_ignores_raises) or c.modifies:
                 raise Unsupported(f'call of {fs.qual} in a pure context needs a contract with pure_expr and no requires/raises/modifies')
             fr0 = Frame(None, dict(env), mod, None, c)
             fr0.extra = self.contract_names_for(c, mod)
@@ -720,6 +725,8 @@ class CallMixin:
         for pn_, ps_ in (getattr(c, 'params', None) or {}).items():
             if isinstance(ps_, api.Fn):
                 names['fn_' + (ps_.fname or pn_)] = VFn(ps_.fname or pn_, ps_)
+        names['fs_exists'] = Builtin('fs_exists', lambda a, k, n, f: self.ufun('fs_exists', STR, z3.BoolSort())(self.zs.lift(a[0], STR)))
+        names['fs_content'] = Builtin('fs_content', lambda a, k, n, f: self.ufun('fs_content', STR, STR)(self.zs.lift(a[0], STR)))
         names['re_match'] = Builtin('re_match', lambda a, k, n, f: self.re_syms(a[0], a[2] if len(a) > 2 else 'match')[1](self.zs.lift(a[1], STR)))
         names['re_group'] = Builtin('re_group', lambda a, k, n, f: self.re_group_syms(a[0], a[3] if len(a) > 3 else 'match', a[1])[0](self.zs.lift(a[2], STR)))
         names['re_group_none'] = Builtin('re_group_none', lambda a, k, n, f: self.re_group_syms(a[0], a[3] if len(a) > 3 else 'match', a[1])[1](self.zs.lift(a[2], STR)))
